@@ -2556,6 +2556,15 @@ WITNESSES = [
     {"name": "raw delivers nothing for an empty rest", "file": "ipv8/messaging/serialization.py", "rule": "packer-symmetry",
      "old": "        unpack_list.append(data[offset:])\n        return len(data)",
      "new": "        if offset < len(data):\n            unpack_list.append(data[offset:])\n        return len(data)"},
+    {"name": "Flags.pack folds without an initial value: the empty flag collection cannot be encoded", "rule": "packer-symmetry", "edits": [
+        {"file": _AP, "old": "from functools import reduce\n", "new": "from functools import reduce\nfrom operator import or_\n"},
+        {"file": _AP, "old": "        return pack(self.format, reduce(lambda a, b: a | b, data, 0))", "new": "        return pack(self.format, reduce(or_, data))"}]},
+    {"name": "ListOf.pack refuses the largest count the prefix can hold", "file": "ipv8/messaging/serialization.py", "rule": "packer-symmetry",
+     "old": "        return pack(self.length_format, len(data)) + b\"\".join([self.packer.pack(item) for item in data])",
+     "new": "        if len(data) >= 256 ** self.length_size - 1:\n            raise PackError(\"too many items\")\n"
+            "        return pack(self.length_format, len(data)) + b\"\".join([self.packer.pack(item) for item in data])"},
+    {"name": "VarLenUtf8 decodes with utf-8-sig while pack writes plain utf-8", "file": "ipv8/messaging/serialization.py", "rule": "packer-symmetry",
+     "old": "        unpack_list.append(encoded_data[0].decode())", "new": "        unpack_list.append(encoded_data[0].decode(\"utf-8-sig\"))"},
     {"name": "unwrap puts circuit id first", "file": _AP, "rule": "cell-codec",
      "old": "                         self.message[0:1],\n                         pack(\"!I\", self.circuit_id),\n                         self.message[1:]])",
      "new": "                         pack(\"!I\", self.circuit_id),\n                         self.message])"},
